@@ -4,7 +4,8 @@
 // Match / PresentationSubmissionBuilder.Build / ParseEnvelope / Validate / ResolveConstraintsFields and the real
 // PEXConsumer (auth/api/iam) are called; an independent reference matcher (ref_test.go) decides soundness,
 // completeness, agreement, unforgeability (mutated submissions) and claim extraction. Verifier soundness is also
-// driven with envelopes that hold id-colliding credentials (twin_test.go).
+// driven with envelopes that hold id-colliding credentials (twin_test.go). The discovery client's own pairing of Match
+// output with credentials (Module.Search -> SearchResult.Fields) is driven through a real discovery.Module (discovery_test.go).
 package c12
 
 import (
@@ -104,7 +105,10 @@ func TestCheck(t *testing.T) {
 		"A second batch of cases comes from the same generator in filter-vocabulary edge mode: filters of every kind lose their `type` keyword (pattern/const/enum/const+pattern/{} on string, number, boolean, array and element values) " +
 		"and wallets lean towards near-matching credentials; the reference decides such filters on the refuting side only (a value that violates a keyword satisfies the filter under no reading), " +
 		"and per case up to 4 (descriptor, credential) pairs the reference decides are also put to the verifier (definition reduced to the descriptor, the credential alone or next to another one, map pointing at it: " +
-		"certainly-unsatisfying must be rejected by Validate and PEXConsumer, satisfying-and-alone must be accepted). Non-trivial: >=1 input descriptor and >=1 wallet credential; distinct by (definition structure fingerprint, wallet class, outcome).")
+		"certainly-unsatisfying must be rejected by Validate and PEXConsumer, satisfying-and-alone must be accepted). " +
+		"After all cases a real discovery.Module (SQL store, Register, Search; only the signature verifier is faked) serves one Discovery Service per case whose selection forces the mapping of a registration " +
+		"(reference matrix: every registered credential satisfies exactly its own descriptor and no other descriptor is satisfied): the selected credentials are registered by several holders, each listing them in another order " +
+		"(descriptor order, reversed, rotated, shuffled), and the named fields Search reports (no query, query on the subject, query on one credential id) must equal what the reference reads in the credential mapped to the field's descriptor. Non-trivial: >=1 input descriptor and >=1 wallet credential; distinct by (definition structure fingerprint, wallet class, outcome).")
 	r.Require(r.Pick(600, 6000), r.Pick(300, 3000))
 	r.Assume("credential JSON view per securing format as used by the repo's own fixtures (vcr/pe/test as_jsonld / as_jwt): JSON-LD credentials in compact form (single type / credentialSubject unwrapped), JWT credentials in expanded form (type and credentialSubject are arrays, registered claims mapped back); claims live in credentialSubject or the standard top-level properties")
 	r.Assume("JSONPath forms limited to $ .name [\"name\"] [n]; single-quoted bracket notation is not generated (the third-party jsonpath library only parses single-character single-quoted names)")
